@@ -30,13 +30,15 @@ LEVEL = "exploration"
 RULE = ("generated modules with eval-when-compile / eval-and-compile / do-mac forms at top level, in `do`, as "
         "assigned values, in list literals, inside functions called 0-3 times and inside one another (depth <= 3), "
         "do-mac results that are themselves staging forms; imported from source then from the byte-code cache. "
+        "Three modules share one pair of child processes (each module is one evaluation). "
         "Non-trivial = >= 2 staging forms, at least one of them inside a function, byte-code path detected; "
         "distinct by module text.")
 FLOOR = {"quick": 150, "thorough": 150}
-BUDGET = {"quick": 30, "thorough": 420}
+BUDGET = {"quick": 35, "thorough": 420}
 CASE_TIMEOUT = 120
 NEEDS_EVENTS = True     # events = STAGE log lines read back
-ANCHORS = ["hy.core.result_macros:compile_eval_foo_compile"]
+ANCHORS = []   # the mechanisms run in child processes; in-process line probes cannot see them.
+               # Reach is shown instead by what the children report (Compiling <path>, sys.argv, STAGE log).
 ASSUMPTIONS = [
     "CPython's .pyc machinery; HY_MESSAGE_WHEN_COMPILING reports exactly the files compiled from source",
     "the importer compiles the whole module before executing it (so a run-time marker splits process 1's log)",
@@ -55,6 +57,7 @@ MARK = 0
 # IR
 
 def n_log(ctr, rng):
+    # ids of the j-th module of a batch start at j*1000 (far fewer than 1000 logging sites each)
     ctr[0] += 1
     return {"k": "log", "id": ctr[0], "v": rng.choice([None, ctr[0] * 10, ctr[0] * 10 + 1])}
 
@@ -103,8 +106,8 @@ def gen_expr(rng, ctr, depth=0):
     return {"k": "do", "body": [n_log(ctr, rng), gen_stage(rng, ctr, depth + 1)]}
 
 
-def gen_module(rng, tier):
-    ctr = [0]
+def gen_module(rng, tier, ctr=None):
+    ctr = ctr if ctr is not None else [0]
     top = []
     nv = 0
     nf = rng.choice([1, 1, 1, 2, 0])
@@ -165,8 +168,8 @@ def hv(v):
     return "None" if v is None else str(v)
 
 
-def render_module(top):
-    return f"(STAGE {MARK} None)\n" + "\n".join(render(t) for t in top) + "\n"
+def render_module(top, mark=MARK):
+    return f"(STAGE {mark} None)\n" + "\n".join(render(t) for t in top) + "\n"
 
 
 def count_stage(n, in_fn=False):
@@ -258,24 +261,33 @@ def reference(top, twice):
 
 # ---------------------------------------------------------------------------
 
+BATCH = 3                 # modules per pair of child processes (each one is a sub-evaluation)
+MODNAMES = ["stg_mod", "stage_m2", "m"]
+
+
 def cases(seed, tier, shard, nshards):
     i = 0
     while True:
-        rng = rng_for(seed, ID, shard, i)
-        i += 1
-        top = gen_module(rng, tier)
-        tot, infn = count_stage({"k": "do", "body": top})
-        if tot == 0:
-            continue
-        yield {"ir": top, "text": render_module(top), "nstage": tot, "infn": infn,
-               "modname": rng.choice(["stg_mod", "stage_m2", "m"])}
+        mods = []
+        while len(mods) < BATCH:
+            rng = rng_for(seed, ID, shard, i)
+            i += 1
+            j = len(mods)
+            ctr = [j * 1000]              # ids of module j are j*1000+1 ...; its marker is j*1000
+            top = gen_module(rng, tier, ctr)
+            tot, infn = count_stage({"k": "do", "body": top})
+            if tot == 0:
+                continue
+            mods.append({"ir": top, "text": render_module(top, j * 1000), "nstage": tot, "infn": infn,
+                         "modname": MODNAMES[j], "mark": j * 1000})
+        yield {"mods": mods}
 
 
 def case_key(case):
-    return case["text"]
+    return [m["text"] for m in case["mods"]]
 
 
-DRIVER = r'''
+DRIVER = r"""
 import builtins, json, os, sys
 LOG = os.environ["VERIF_STAGE_LOG"]
 PHASE = os.environ["VERIF_STAGE_PHASE"]
@@ -285,19 +297,21 @@ def STAGE(i, v=None):
     return v
 builtins.STAGE = STAGE
 sys.path.insert(0, sys.argv[1])
-out = {"ok": True}
-try:
-    import importlib
-    import hy
-    m = importlib.import_module(sys.argv[2])
-    out["values"] = {k: v for k, v in vars(m).items()
-                     if k[0] in "rc" and k[1:].isdigit()}
-    json.dumps(out)
-except BaseException as e:
-    import traceback
-    out = {"ok": False, "error": [type(e).__name__, str(e)[:400]], "tb": traceback.format_exc()[-1500:]}
-sys.stdout.write("@@DUMP@@" + json.dumps(out, default=repr) + "\n")
-'''
+outs = {}
+import importlib
+import hy
+for name in sys.argv[2:]:
+    try:
+        m = importlib.import_module(name)
+        out = {"ok": True, "values": {k: v for k, v in vars(m).items()
+                                      if k[0] in "rc" and k[1:].isdigit()}}
+        json.dumps(out)
+    except BaseException as e:
+        import traceback
+        out = {"ok": False, "error": [type(e).__name__, str(e)[:400]], "tb": traceback.format_exc()[-1500:]}
+    outs[name] = out
+sys.stdout.write("@@DUMP@@" + json.dumps(outs, default=repr) + "\n")
+"""
 
 
 def parse_dump(out):
@@ -314,9 +328,9 @@ def fmt(c):
     return "{" + ", ".join(f"{k}:{c[k]}" for k in sorted(c)) + "}"
 
 
-def run_case(case):
-    top = case["ir"]
-    classes = ["n%d" % min(case["nstage"], 8)]
+def classes_of(mod):
+    top = mod["ir"]
+    classes = ["n%d" % min(mod["nstage"], 8)]
     kinds = set()
 
     def walk(n, under):
@@ -341,24 +355,78 @@ def run_case(case):
     for t in top:
         if t["k"] == "defn":
             classes.append("calls:%d" % ncalls[t["name"]])
-    res = {"ok": True, "nontrivial": False, "classes": classes, "events": 0,
-           "sample": {"text": case["text"]}}
+    return classes
 
+
+def judge(mod, path, events, dumps, comp):
+    """One module of the batch -> (ok True/False/None, why, extra class)."""
+    top, mark, text = mod["ir"], mod["mark"], mod["text"]
     hi_c, run_e, env_hi = reference(top, True)
     lo_c, run_lo, env_lo = reference(top, False)
     assert run_e == run_lo and env_hi == env_lo
+    d1, d2 = dumps[0].get(mod["modname"]), dumps[1].get(mod["modname"])
+    if d1 is None or d2 is None:
+        return False, "module missing from a child's dump", None
+    if not d1["ok"]:
+        return False, (f"importing the module from source failed: {d1['error']}\n"
+                       f"{d1.get('tb', '')[-600:]}\n{text}"), None
+    if path not in comp[0] or path in comp[1]:
+        return None, f"compiled p1={comp[0]} p2={comp[1]}", "inconclusive:bytecode-path-not-detected"
+    if not d2["ok"]:
+        return False, f"import from cached byte-code failed: {d2['error']}\n{text}", "bytecode-path-detected"
+    mine = lambda evs: [i for i in evs if mark <= i < mark + 1000]
+    e1, e2 = mine(events["p1"]), mine(events["p2"])
+    for name, e in (("source", e1), ("cached", e2)):
+        if e.count(mark) != 1:
+            return False, f"{name} run: run-time marker logged {e.count(mark)} times: {e}\n{text}", "bytecode-path-detected"
+    cut, cut2 = e1.index(mark), e2.index(mark)
+    c1, r1 = Counter(e1[:cut]), Counter(e1[cut + 1:])
+    c2, r2 = Counter(e2[:cut2]), Counter(e2[cut2 + 1:])
 
+    def where(i):
+        return f"(STAGE {i} …) in\n{text}"
+    tag = "bytecode-path-detected"
+    for i in sorted(set(hi_c) | set(c1)):
+        if not (lo_c[i] <= c1[i] <= hi_c[i]):
+            want = str(hi_c[i]) if lo_c[i] == hi_c[i] else f"{lo_c[i]}..{hi_c[i]}"
+            return False, (f"compile time (source import): id {i} executed {c1[i]}x, expected {want}; "
+                           f"observed {fmt(c1)} expected {fmt(hi_c)} {where(i)}"), tag
+    if r1 != run_e:
+        i = sorted(k for k in set(r1) | set(run_e) if r1[k] != run_e[k])[0]
+        return False, (f"run time (source import): id {i} executed {r1[i]}x, expected {run_e[i]}; "
+                       f"observed {fmt(r1)} expected {fmt(run_e)} {where(i)}"), tag
+    if c2:
+        return False, (f"cached run executed compile-time code: {fmt(c2)} before the module "
+                       f"started running\n{text}"), tag
+    if r2 != run_e:
+        i = sorted(k for k in set(r2) | set(run_e) if r2[k] != run_e[k])[0]
+        return False, (f"run time (cached import): id {i} executed {r2[i]}x, expected {run_e[i]}; "
+                       f"observed {fmt(r2)} expected {fmt(run_e)} {where(i)}"), tag
+    for k, d in enumerate((d1, d2)):
+        got = d["values"]
+        for var, want in env_hi.items():
+            if var not in got:
+                return False, f"process {k + 1}: {var} not set; expected {want!r}\n{text}", tag
+            if got[var] != want or type(got[var]) is not type(want):
+                return False, f"process {k + 1}: {var} = {got[var]!r}, expected {want!r}\n{text}", tag
+    return True, None, tag
+
+
+def run_case(case):
+    mods = case["mods"]
+    res = {"ok": True, "nontrivial": False, "classes": [], "events": 0, "n": 0, "nt_keys": [],
+           "sample": {"text": mods[0]["text"]}}
     with CaseDir("c16") as cd:
         src = os.path.join(cd.path, "src")
-        path = cd.write(os.path.join("src", case["modname"] + ".hy"), case["text"])
+        paths = [cd.write(os.path.join("src", m["modname"] + ".hy"), m["text"]) for m in mods]
         drv = cd.write("_drv.py", DRIVER)
         log = os.path.join(cd.path, "stage.log")
         runs = []
         for phase in ("p1", "p2"):
             env = cd.env({"VERIF_STAGE_LOG": log, "VERIF_STAGE_PHASE": phase})
-            r = cd.run([python(), drv, src, case["modname"]], env=env, timeout=45)
+            r = cd.run([python(), drv, src] + [m["modname"] for m in mods], env=env, timeout=60)
             if r["rc"] is None:
-                res.update(ok=None, classes=classes + ["inconclusive:child-timeout"])
+                res.update(ok=None, classes=["inconclusive:child-timeout"])
                 return res
             runs.append(r)
         try:
@@ -375,69 +443,27 @@ def run_case(case):
     dumps = [parse_dump(r["out"]) for r in runs]
     if any(d is None for d in dumps):
         k = [d is None for d in dumps].index(True)
-        res.update(ok=False, why=f"process {k + 1} produced no dump: rc={runs[k]['rc']} "
+        res.update(ok=False, n=1, why=f"process {k + 1} produced no dump: rc={runs[k]['rc']} "
                    f"stderr={runs[k]['err'][-400:]}")
         return res
-    if not dumps[0]["ok"]:
-        res.update(ok=False, why=f"importing the module from source failed: {dumps[0]['error']}\n"
-                   f"{dumps[0].get('tb', '')[-600:]}")
+    comp = [compiled_paths(r["err"]) for r in runs]
+    whys = []
+    for m, path in zip(mods, paths):
+        ok, why, tag = judge(m, path, events, dumps, comp)
+        res["classes"] += classes_of(m) + ([tag] if tag else [])
+        if ok is None:
+            continue
+        res["n"] += 1
+        if tag == "bytecode-path-detected" and m["nstage"] >= 2 and m["infn"] >= 1:
+            res["nt_keys"].append(m["text"])
+        if ok is False:
+            whys.append(why)
+    if res["n"] == 0:
+        res["ok"] = None
         return res
-    comp1 = compiled_paths(runs[0]["err"])
-    comp2 = compiled_paths(runs[1]["err"])
-    if path not in comp1 or path in comp2:
-        res.update(ok=None, classes=classes + ["inconclusive:bytecode-path-not-detected"],
-                   why=f"compiled p1={comp1} p2={comp2}")
-        return res
-    res["classes"] = classes + ["bytecode-path-detected"]
-    res["nontrivial"] = case["nstage"] >= 2 and case["infn"] >= 1
-    if not dumps[1]["ok"]:
-        res.update(ok=False, why=f"import from cached byte-code failed: {dumps[1]['error']}")
-        return res
-
-    # split process 1 at the run-time marker
-    e1 = events["p1"]
-    if e1.count(MARK) != 1:
-        res.update(ok=False, why=f"source run: run-time marker logged {e1.count(MARK)} times: {e1}")
-        return res
-    cut = e1.index(MARK)
-    c1, r1 = Counter(e1[:cut]), Counter(e1[cut + 1:])
-    e2 = events["p2"]
-    if e2.count(MARK) != 1:
-        res.update(ok=False, why=f"cached run: run-time marker logged {e2.count(MARK)} times: {e2}")
-        return res
-    cut2 = e2.index(MARK)
-    c2, r2 = Counter(e2[:cut2]), Counter(e2[cut2 + 1:])
-
-    def where(i):
-        return f"(STAGE {i} …) in\n{case['text']}"
-    for i in sorted(set(hi_c) | set(c1)):
-        if not (lo_c[i] <= c1[i] <= hi_c[i]):
-            want = str(hi_c[i]) if lo_c[i] == hi_c[i] else f"{lo_c[i]}..{hi_c[i]}"
-            res.update(ok=False, why=f"compile time (source import): id {i} executed {c1[i]}x, expected {want}; "
-                       f"observed {fmt(c1)} expected {fmt(hi_c)} {where(i)}")
-            return res
-    if r1 != run_e:
-        i = sorted(k for k in set(r1) | set(run_e) if r1[k] != run_e[k])[0]
-        res.update(ok=False, why=f"run time (source import): id {i} executed {r1[i]}x, expected {run_e[i]}; "
-                   f"observed {fmt(r1)} expected {fmt(run_e)} {where(i)}")
-        return res
-    if c2:
-        res.update(ok=False, why=f"cached run executed compile-time code: {fmt(c2)} before the module started running")
-        return res
-    if r2 != run_e:
-        i = sorted(k for k in set(r2) | set(run_e) if r2[k] != run_e[k])[0]
-        res.update(ok=False, why=f"run time (cached import): id {i} executed {r2[i]}x, expected {run_e[i]}; "
-                   f"observed {fmt(r2)} expected {fmt(run_e)} {where(i)}")
-        return res
-    for k, d in enumerate(dumps):
-        got = d["values"]
-        for var, want in env_hi.items():
-            if var not in got:
-                res.update(ok=False, why=f"process {k + 1}: {var} not set; expected {want!r}\n{case['text']}")
-                return res
-            if got[var] != want or type(got[var]) is not type(want):
-                res.update(ok=False, why=f"process {k + 1}: {var} = {got[var]!r}, expected {want!r}\n{case['text']}")
-                return res
+    res["nontrivial"] = bool(res["nt_keys"])
+    if whys:
+        res.update(ok=False, why=whys[0])
     return res
 
 
@@ -446,5 +472,5 @@ def gate(tot, classes, extra, tier):
         return "bytecode-path-never-detected"
     n = sum(v for k, v in classes.items() if k.startswith("n") and k[1:].isdigit())
     if classes.get("inconclusive:bytecode-path-not-detected", 0) > 0.2 * max(n, 1):
-        return "bytecode-path-not-detected-in-%d-cases" % classes["inconclusive:bytecode-path-not-detected"]
+        return "bytecode-path-not-detected-in-%d-modules" % classes["inconclusive:bytecode-path-not-detected"]
     return None
